@@ -211,6 +211,8 @@ class Typer:
         self.unresolved: List[Tuple[Ctx, ast.AST, str]] = []
         self.stats = {'attr_sites': 0, 'resolved': 0, 'external': 0, 'hinted': 0, 'unresolved': 0}
         self._round = 0
+        self._frozen = False
+        self._expr_cache: Dict[Tuple, FrozenSet] = {}
         self._all_ctx: List[Ctx] = self._enumerate_contexts()
         self._member_names = self._collect_member_names()
         self._fixpoint()
@@ -287,6 +289,7 @@ class Typer:
                 break
             prev = sig
         self.rounds = rnd + 1
+        self._frozen = True
 
     def _scan(self, ctx: Ctx):
         """Evaluate every store and call in ctx to feed attribute / parameter / element tables."""
@@ -718,6 +721,16 @@ class Typer:
         return EMPTY
 
     def expr(self, node, ctx: Ctx, env=None, keep_bound=False) -> FrozenSet:
+        if self._frozen and env is None:
+            k = (ctx, id(node), keep_bound)
+            r = self._expr_cache.get(k)
+            if r is None:
+                r = self._expr_uncached(node, ctx, None, keep_bound)
+                self._expr_cache[k] = r
+            return r
+        return self._expr_uncached(node, ctx, env, keep_bound)
+
+    def _expr_uncached(self, node, ctx: Ctx, env=None, keep_bound=False) -> FrozenSet:
         ts = self._expr(node, ctx, env)
         if not keep_bound and any(t[0] == 'bound_ext' for t in ts):
             ts = frozenset(t for t in ts if t[0] != 'bound_ext')
